@@ -43,7 +43,7 @@ Stored(n) == UNION {Range(fifo[n][k]) : k \in DOMAIN fifo[n]}
 (* groups of s that are neither delivered nor stored in n's FIFO: losing them from memory loses them on n *)
 Gone(n, s) == {g \in Range(NoMark(s)) : Id(g) \notin DeliveredIds /\ g \notin Stored(n)}
 Later(g) == g[2] >= 2
-Sfx(later) == IF later THEN ":later-commit-of-entry" ELSE ""
+Sfx(later) == IF later THEN ":later-commit" ELSE ""
 OnlyLater(S) == S # {} /\ \A x \in S : x[2] >= 2        \* ids or groups: ordinal is the 2nd component
 Undelivered(v) == {x \in allg : x[1] <= v /\ x \notin DeliveredIds}
 
@@ -144,8 +144,8 @@ TEnq == /\ Is("fifo.enq") /\ Step
               /\ fifo' = [fifo EXCEPT ![N] = IF Ev.stored THEN (Ev.idx :> gb) @@ @ ELSE @]
               /\ highKey' = [highKey EXCEPT ![N] = IF Ev.stored /\ Ev.idx > @ THEN Ev.idx ELSE @]
               /\ drops' = IF Ev.stored THEN drops
-                          ELSE drops \cup {<<g[1], g[2], (IF Ev.idx = 0 THEN "lost:batch-key-0-ignored-by-fifo"
-                                                           ELSE "lost:batch-key-not-above-highest-ignored-by-fifo") \o Sfx(Later(g))>> : g \in Gone(N, gb)}
+                          ELSE drops \cup {<<g[1], g[2], (IF Ev.idx = 0 THEN "lost:batch-key-0"
+                                                           ELSE "lost:batch-key-reused") \o Sfx(Later(g))>> : g \in Gone(N, gb)}
         /\ pb' = [pb EXCEPT ![N] = <<>>]
         /\ Frame({"bad", "fifo", "highKey", "drops", "pb"})
 TDel == /\ Is("fifo.del") /\ Step
@@ -183,7 +183,7 @@ TTake == /\ Is("cdc.take") /\ Step
                /\ taken' = [taken EXCEPT ![N] = IF Ev.skipped THEN <<>> ELSE <<k, content>>]
                /\ cursor' = [cursor EXCEPT ![N] = IF resumed THEN @ ELSE IF k + 1 > @ THEN k + 1 ELSE @]
                /\ drops' = IF skippedOver
-                           THEN drops \cup {<<g[1], g[2], "lost:unsent-batch-skipped-after-leadership-change">> :
+                           THEN drops \cup {<<g[1], g[2], "lost:unsent-batch-skipped">> :
                                               g \in {x \in Range(unsent[N][2]) : Id(x) \notin DeliveredIds}}
                            ELSE drops
                /\ unsent' = [unsent EXCEPT ![N] = <<>>]
@@ -239,7 +239,7 @@ TRestart == /\ Is("c.restart") /\ Step
             /\ LET n == Ev.node
                    mem == inq[n] \o batch[n] \o (IF pb[n] = <<>> THEN <<>> ELSE pb[n][2])
                    lostg == {g \in Gone(n, mem) : g[1] <= snapIdx[n]}
-               IN /\ drops' = drops \cup {<<g[1], g[2], "lost:in-memory-when-restarted-after-snapshot" \o Sfx(Later(g))>> : g \in lostg}
+               IN /\ drops' = drops \cup {<<g[1], g[2], "lost:in-memory-at-restart-after-snapshot" \o Sfx(Later(g))>> : g \in lostg}
                   /\ applied' = [applied EXCEPT ![n] = snapIdx[n]]
                   /\ inq' = [inq EXCEPT ![n] = <<>>] /\ batch' = [batch EXCEPT ![n] = <<>>] /\ pb' = [pb EXCEPT ![n] = <<>>]
                   /\ cursor' = [cursor EXCEPT ![n] = 0] /\ taken' = [taken EXCEPT ![n] = <<>>]
@@ -259,7 +259,7 @@ TFinal == /\ Is("c.final") /\ Step
                  lost == want \ DeliveredIds
                  held(x) == \E n \in Node : unsent[n] # <<>> /\ \E g \in Range(unsent[n][2]) : Id(g) = x
                  why(x) == {d[3] : d \in {y \in drops : y[1] = x[1] /\ y[2] = x[2]}}
-                           \cup (IF held(x) THEN {"lost:unsent-batch-skipped-after-leadership-change"} ELSE {})
+                           \cup (IF held(x) THEN {"lost:unsent-batch-skipped"} ELSE {})
                  names == UNION {IF why(x) = {} THEN {"lost:unexplained"} ELSE why(x) : x \in lost}
              IN bad' = bad \cup {<<l, nm>> : nm \in names}
           /\ Frame({"bad"})
